@@ -15,18 +15,35 @@ def gen_vectors(ctx, fam, npa=1, nra=1, deviations="{}", simulate=None, depth=No
     return r.vectors
 
 
-def combine_cases(ctx, vectors1, n, seed, fam="req"):
+def combine_cases(ctx, vectors1, n, seed, fam="req", mode="random"):
     """n seeded two-attribute cases assembled from single-attribute vectors; TLC (Cases_HTTPTransport) computes
-    oracle and mechanism for them and checks the invariants."""
+    oracle and mechanism for them and checks the invariants.  mode: "random" pairs, "sameloc" (both attributes in
+    the same non-body location: two cookies, two headers ...), "twin" (the same shape twice: e.g. one alias type
+    referenced by two attributes)."""
     import random
     rnd = random.Random(seed)
     cases, seen = [], set()
     key = "pa" if fam == "req" else "ra"
     val = "pv" if fam == "req" else "rv"
+    byloc = {}
+    for v in vectors1:
+        byloc.setdefault(v[key][0]["loc"], []).append(v)
     tries = 0
-    while len(cases) < n and tries < 20 * n:
+    while len(cases) < n and tries < 40 * n:
         tries += 1
-        a, b = rnd.choice(vectors1), rnd.choice(vectors1)
+        a = rnd.choice(vectors1)
+        if mode == "sameloc":
+            loc = a[key][0]["loc"]
+            if loc in ("body", "path"):
+                continue
+            b = rnd.choice(byloc[loc])
+        elif mode == "twin":
+            if a[key][0]["nest"] == "direct":
+                continue
+            same = [x for x in byloc[a[key][0]["loc"]] if x[key] == a[key]]
+            b = rnd.choice(same)
+        else:
+            b = rnd.choice(vectors1)
         c = {"pa": a["pa"], "ra": a["ra"], "tagged": False, "pv": a["pv"], "rv": a["rv"]}
         c[key] = a[key] + b[key]
         c[val] = a[val] + b[val]
@@ -36,7 +53,7 @@ def combine_cases(ctx, vectors1, n, seed, fam="req"):
         seen.add(k)
         cases.append(c)
     r = ctx.gen("mc/Cases_HTTPTransport", "mc/Cases_HTTPTransport.cfg", consts={"NPA": 2 if fam == "req" else 1, "NRA": 1 if fam == "req" else 2, "Family": '"%s"' % fam},
-                files={"cases.ndjson": "".join(json.dumps(c) + "\n" for c in cases)}, label="Cases %s x2 (%d)" % (fam, len(cases)), timeout=1500)
+                files={"cases.ndjson": "".join(json.dumps(c) + "\n" for c in cases)}, label="Cases %s x2 %s (%d)" % (fam, mode, len(cases)), timeout=1500)
     out, seen = [], set()
     for v in r.vectors:
         k = case_key(v)
